@@ -143,6 +143,13 @@ func buildJobs(t *target, thorough bool) []job {
 			add("len8-sweep", func(emit func([]byte)) {
 				buf := make([]byte, L)
 				copy(buf, s.data)
+				if t.len8Boundary {
+					for _, v := range b8For(s.data[off]) {
+						buf[off] = v
+						emit(buf)
+					}
+					return
+				}
 				for v := 0; v < 256; v++ {
 					if byte(v) == s.data[off] {
 						continue
